@@ -328,19 +328,22 @@ func worker() {
 		outMu.Unlock()
 	}
 
-	// dump what was recovered from the file
-	list, err := st.List(ctx, resource.NewMetadata("ns", res.TypeA, "", resource.VersionUndefined))
-	if err != nil {
-		fmt.Println("FATAL list:", err)
-		os.Exit(3)
-	}
+	// dump what was recovered from the file - unless told not to: then the very first accesses to the reopened (non-empty) store are
+	// the concurrent operations of the two goroutines below (the lazy load races with them)
+	if os.Getenv("VERIF_C10_NODUMP") == "" {
+		list, err := st.List(ctx, resource.NewMetadata("ns", res.TypeA, "", resource.VersionUndefined))
+		if err != nil {
+			fmt.Println("FATAL list:", err)
+			os.Exit(3)
+		}
 
-	dump := map[string]val{}
-	for _, it := range list.Items {
-		dump[it.Metadata().ID()] = snap(it)
-	}
+		dump := map[string]val{}
+		for _, it := range list.Items {
+			dump[it.Metadata().ID()] = snap(it)
+		}
 
-	emit("DUMP", dump)
+		emit("DUMP", dump)
+	}
 
 	if n == 0 {
 		return
@@ -745,7 +748,7 @@ type childRun struct {
 }
 
 // runChild starts a worker and kills it when the trigger line shows up (kind "INTENT"/"ACK", index k); k < 0 = let it finish.
-func runChild(path, marshaler string, seed uint64, from, n int, killKind string, killK int) (*childRun, error) {
+func runChild(path, marshaler string, seed uint64, from, n int, killKind string, killK int, noDump ...bool) (*childRun, error) {
 	cmd := exec.Command(os.Args[0], "-test.run", "^$")
 
 	var extraEnv []string
@@ -764,6 +767,10 @@ func runChild(path, marshaler string, seed uint64, from, n int, killKind string,
 		sc := strings.TrimPrefix(killKind, "STRACEERR-")
 		cmd = exec.Command("strace", "-f", "-qq", "-o", "/dev/null", "-e", "trace="+sc, "-e", fmt.Sprintf("inject=%s:error=EIO:when=%d", sc, killK),
 			os.Args[0], "-test.run", "^$")
+	}
+
+	if len(noDump) > 0 && noDump[0] {
+		extraEnv = append(extraEnv, "VERIF_C10_NODUMP=1")
 	}
 
 	cmd.Env = append(append(os.Environ(), extraEnv...), "VERIF_CHILD=c10worker", "VERIF_C10_DB="+path, "VERIF_C10_MARSHALER="+marshaler,
@@ -984,15 +991,23 @@ func crashes(c *vk.C, dir string) {
 					killK = off + 1
 				}
 
-				run, err := runChild(path, jb.marshaler, jb.seed, from, segment, kind, killK)
+				// after a restart every other job lets the two worker goroutines be the first to touch the reopened store (cold start):
+				// the file contents were verified by the read-only child at the end of the previous cycle
+				cold := cy > 0 && ji%2 == 1
+
+				run, err := runChild(path, jb.marshaler, jb.seed, from, segment, kind, killK, cold)
 				if err != nil || run.fatal != "" {
 					c.Violation("crash-worker-failed", map[string]any{"err": fmt.Sprint(err), "fatal": run.fatal, "history": history})
 
 					return
 				}
 
+				if cold {
+					c.Count("restarts_with_concurrent_first_access", 1)
+				}
+
 				// (a) what the fresh process recovered must equal the model (it was updated at the end of the previous cycle)
-				if cy > 0 || from == 0 {
+				if !cold && (cy > 0 || from == 0) {
 					if !checkDump(c, run.dump, model, nil, jb.marshaler, history) {
 						return
 					}
